@@ -38,7 +38,7 @@ import XrsVerif.Proofs.PolygonizeRegions
   the raster, with connectivity expressed through the C16 labelling whose correctness Props/C16 proves);
   below it is evaluated by the kernel on concrete rasters (hole, diagonal pinch, mask, single column) and
   the correspondence run checks it -- through an independent Python oracle -- on the real code for every
-  raster up to 12 pixels over {0,1}, 10 pixels over three symbols, and random larger ones.
+  raster up to 12 pixels over {0,1}, 11 pixels over three symbols, and random larger ones.
 -/
 set_option linter.unusedVariables false
 namespace XrsVerif.C15
